@@ -532,6 +532,8 @@ IGNORED_ATTRS = {
     # lazily evaluated caches, reset to None by the property setters that from_hdf5 runs; what they cache is
     # compared through the public accessors in OBSERVERS below
     'tenpy.models.lattice.Lattice': ('_mps_sites_cache', '_BZ', '_reciprocal_basis'),
+    # harness class: the recipe for its own __reduce__ value, not part of the state
+    'harness.c17_api.Red': ('_proto',),
 }
 
 # public accessors compared in addition to __dict__ (both sides evaluated; skipped when the original raises)
